@@ -124,7 +124,7 @@ PLANS["C12"] = {
              "which is the only case the library accepts) and QSexact_basis_optimalstatus / _dualstatus / QSexact_verify are compared with an independent exact Gaussian "
              "elimination (O-BASIS); family 'lp': every basis returned with OPTIMAL under every configuration is checked (one basic per row, exact basic solution = reported "
              "solution, verdict function and warm start confirm). non-trivial LP = has at least one non-singular basis"),
-    "quick": [fam("basis-S0q1", "prod", "basis", {"fam": "S0q1", "files": 0}, weight=3, crash_props=["C17", "C12"]),
+    "quick": [hist("hist-d2-verd", "prod", 2, weight=2, crash_props=["C17", "C12"], opts={"depth": 2, "reduced": 0, "verd": 1}), hist("hist-sw3-verd", "prod", 3, weight=2, crash_props=["C17", "C12"], opts={"depth": 3, "reduced": 0, "sandwich": 1, "verd": 1}), fam("basis-S0q1", "prod", "basis", {"fam": "S0q1", "files": 0}, weight=3, crash_props=["C17", "C12"]),
               fam("basis-S1q", "prod", "basis", {"fam": "S1q", "files": 0}, weight=2, crash_props=["C17", "C12"]),
               fam("basis-Sbq", "prod", "basis", {"fam": "Sbq", "files": 0}, weight=2, crash_props=["C17", "C12"]),
               lp("S0q1-k1", "prodl1", "S0q1", "k1", weight=3)],
@@ -429,7 +429,7 @@ PLANS["C13"] = {
              "CURRENT matrix; a singular replacement is reported, refactor requests are honoured as basis.c does; 'chain' adds one chain of N replacements. family 'binv' (API level): every LP of the family x primal/dual x scaling x "
              "pricing x (complete run + iteration limits) and single pivot-ins after an optimal solve: row_i(B^-1) B = e_i and tableau row = row_i(B^-1) [A|logicals] with the reported basis order, through the in-situ factorization "
              "(with its accumulated updates), the public accessors and the exported lib functions; non-trivial = at least one update / simplex iteration happened"),
-    "quick": [fac("factor-d2-u2", "prod", {"dim": 2, "upd": 2, "set": "012345"}, weight=3), fac("factor-d3pm-u1", "prod", {"dim": 3, "alpha": "pm", "upd": 1, "set": "012345"}, weight=5),
+    "quick": [hist("hist-sw3-binv-san", "san", 3, weight=2, crash_props=["C17", "C13"], opts={"depth": 3, "reduced": 0, "sandwich": 1, "binv": 1}), fac("factor-d2-u2", "prod", {"dim": 2, "upd": 2, "set": "012345"}, weight=3), fac("factor-d3pm-u1", "prod", {"dim": 3, "alpha": "pm", "upd": 1, "set": "012345"}, weight=5),
               fac("factor-d4-u1", "prod", {"dim": 4, "upd": 1, "set": "5123"}, weight=2), fac("factor-d5-u1", "prod", {"dim": 5, "upd": 1}, weight=1), fac("factor-d8-u1", "prod", {"dim": 8, "upd": 1}, weight=1),
               fac("factor-d24-chain-san", "san", {"dim": 24, "upd": 0, "chain": 200, "nvar": 2, "set": "512"}, weight=2),
               fac("binv-T", "prod", {"fam": "T", "price": "both", "lims": "1,2,3,5,8,13,21,34,55", "tscale": 30}, weight=2, family="binv", timeout=300),
@@ -536,3 +536,10 @@ for _pid, (_text, _tech) in LEVELS.items():
     _pl["level_text"] = _text + ". Bounds - quick: %s; thorough: %s." % (_b.get("quick", "see evidence"), _b.get("thorough", "see evidence"))
     _pl["technique"] = _tech
     _pl["level_note"] = "; ".join(_pl.get("assumptions", [])) + ("; " if _pl.get("assumptions") else "") + _TB
+
+# hist runs that carry the C12 / C13 oracles into edit/solve histories
+PLANS["C12"]["evidence"] = {"states": ["bases", "c12_returned_bases", "histories"], "transitions": ["executions", "api_transitions"], "nontrivial": ["bases_nonsingular", "c12_returned_nonsingular", "verd_states_checked"]}
+PLANS["C13"]["evidence"] = {"states": ["instances", "histories"], "transitions": ["executions", "api_transitions"], "nontrivial": ["instances_nontrivial", "api_states_checked"]}
+PLANS["C12"]["rule"] += ("; family hist with verd=1: after EVERY step of every history (depth 2 over the full alphabet; solve ; any operation ; solve) QSexact_basis_optimalstatus, QSexact_basis_dualstatus and QSexact_verify are called "
+                         "on the problem's own current basis - the calls are part of the history, so state they keep across edits is exercised - and compared with exact elimination on the model as edited so far")
+PLANS["C13"]["rule"] += ("; family hist with binv=1: after every OPTIMAL solve inside solve ; any operation ; solve histories (also on start problems built rows-first) mpq_QSget_basis_order / QSget_binv_row / QSget_tableau_row are multiplied back against the edited model")
